@@ -20,7 +20,7 @@ RULE = (
 REQUIRED = [
     "class.EncodedSequence", "class.StripedSequence", "class.CountMatrix", "class.WeightMatrix", "class.ScoringMatrix",
     "class.ScoreDistribution", "class.StripedScores", "alphabet.protein", "index.negative", "index.out_of_range",
-    "index.huge", "view.elements_checked", "view.empty_object", "view.rows<K", "view.after_calculate",
+    "index.huge", "index.row_modified_then_reread", "view.elements_checked", "view.empty_object", "view.rows<K", "view.after_calculate",
     "view.copy_of_scored", "view.copy_scored_again", "scores.L=M", "view.taken_before_reuse", "view.realloc_expected", "scores.L<M",
 ]
 
@@ -321,6 +321,28 @@ def check_view_scores(rep, case, sc, scell, srows, wit):
     return mv
 
 
+def check_row_independence(rep, case, cls, obj, wit):
+    """a row handed out by obj[i] is a value: changing it must not change what obj[i] returns next"""
+    try:
+        n = len(obj)
+        if n == 0:
+            return
+        i = n // 2
+        row = obj[i]
+        before = list(row)
+        if not isinstance(row, list) or not before:
+            return
+        row[0] = 12345.0
+        row.append(-1.0)
+        again = list(obj[i])
+        neg = list(obj[i - n])
+        if again != before or neg != before:
+            rep.violate("c18.index.row_aliases_earlier_result", case, "%s[%d] returns %r after the list returned earlier was modified; it returned %r before" % (cls, i, again[:6], before[:6]), wit)
+        rep.cover("index.row_modified_then_reread")
+    except Exception as e:
+        rep.violate("c18.index.row_aliases_earlier_result", case, "%s: re-reading a row after modifying the earlier result raised %r" % (cls, e), wit)
+
+
 def family_matrices(rep, case, rng):
     protein = rng.random() < 0.3
     alphabet = PROTEIN if protein else DNA
@@ -336,15 +358,18 @@ def family_matrices(rep, case, rng):
     counts = R.counts_from_sequences(seqs, alphabet)
     rep.cover("class.CountMatrix")
     check_indexing(rep, case, "CountMatrix", motif.counts, counts, wit, same=lambda a, b: list(a) == list(b))
+    check_row_independence(rep, case, "CountMatrix", motif.counts, wit)
     pwm = motif.counts.normalize(0.25)
     wref = R.weights(counts, [0.25] * (k - 1) + [0.0], R.uniform_bg(alphabet))
     rows_close = lambda a, b: len(a) == len(b) and all(close(float(x), float(y)) for x, y in zip(a, b))
     rep.cover("class.WeightMatrix")
     check_indexing(rep, case, "WeightMatrix", pwm, wref, wit, same=rows_close)
+    check_row_independence(rep, case, "WeightMatrix", pwm, wit)
     pssm = pwm.log_odds()
     sref = R.log_odds(wref, 2.0)
     rep.cover("class.ScoringMatrix")
     if check_indexing(rep, case, "ScoringMatrix", pssm, sref, wit, same=rows_close):
+        check_row_independence(rep, case, "ScoringMatrix", pssm, wit)
         prow = [list(pssm[i]) for i in range(w)]
         check_view(rep, case, "ScoringMatrix", pssm, lambda i, j: prow[i][j], "f", wit, shape=(w, k))
         rc_ok = not protein
